@@ -400,6 +400,7 @@ func RefFiles(d *Def, keepFunc func(*Func) bool, extends bool) map[*File]bool {
 // Prune returns the program the trimmer must produce (definitions that must stay; no method filter).
 func Prune(p *Program, e *TrimExpect) *Program {
 	out := &Program{}
+	cp := map[*File]*File{}
 	for _, f := range e.Files {
 		nf := *f
 		nf.Defs = nil
@@ -408,7 +409,20 @@ func Prune(p *Program, e *TrimExpect) *Program {
 				nf.Defs = append(nf.Defs, d)
 			}
 		}
+		cp[f] = &nf
 		out.Files = append(out.Files, &nf)
+	}
+	// includes point at the copies (definitions keep pointing at the original files: same paths and namespaces)
+	for _, nf := range out.Files {
+		incs := make([]*Include, 0, len(nf.Includes))
+		for _, inc := range nf.Includes {
+			c := *inc
+			if x := cp[inc.File]; x != nil {
+				c.File = x
+			}
+			incs = append(incs, &c)
+		}
+		nf.Includes = incs
 	}
 	return out
 }
